@@ -349,6 +349,26 @@ Theorem C08_rel_history_exact : forall le is64 mips rela es pre tail slack,
 Proof. exact rel_history_exact. Qed.
 Print Assumptions C08_rel_history_exact.
 
+(* ---------------- which sections are searched for .rel/.rela<name>: all of them *)
+(* the count recorded as the gABI prescribes (e_shnum, or 0 and sh_size of header 0 from 0xff00
+   sections on): iter_sections visits every header of the table *)
+Theorem C08_sections_all_visible : forall e_shoff table,
+  e_shoff <> 0 -> 1 <= zlen table ->
+  s_size (hd (mkSec [] 0 0 0 0 0) table) = snd (shnum_fields (zlen table)) ->
+  iter_sections e_shoff (fst (shnum_fields (zlen table))) table = table.
+Proof. exact sections_all_visible. Qed.
+Print Assumptions C08_sections_all_visible.
+
+(* so loading a debug section of such a FILE is read_dwarf_section over its whole section table,
+   to which every theorem above applies, however many sections there are *)
+Theorem C08_read_dwarf_file_refines : forall le is64 em img e_shoff table section flag,
+  e_shoff <> 0 -> 1 <= zlen table ->
+  s_size (hd (mkSec [] 0 0 0 0 0) table) = snd (shnum_fields (zlen table)) ->
+  read_dwarf_section_file le is64 em img e_shoff (fst (shnum_fields (zlen table))) table section flag
+  = read_dwarf_section le is64 em img table section flag.
+Proof. exact read_dwarf_file_refines. Qed.
+Print Assumptions C08_read_dwarf_file_refines.
+
 (* ---------------- the ELFFile object: get_dwarf_info() called repeatedly, in any order *)
 (* for EVERY image and flag sequence: the n-th call answers as a first call with its own flag
    would, and the file image the object holds is unchanged *)
@@ -441,3 +461,12 @@ Example C08_ex_repeated_calls :
   = [Ok [1; 1; 0; 0; 9; 9; 9; 9]; Ok s; Ok [1; 1; 0; 0; 9; 9; 9; 9]] /\
   spec_apply_all true false EM_386 false symvals [1; 1; 0; 0; 9; 9; 9; 9] es = Ok [1; 2; 0; 0; 9; 9; 9; 9].
 Proof. repeat split; vm_compute; reflexivity. Qed.
+
+(* extended numbering: 0xff00 sections are recorded as e_shnum = 0 / sh_size = 0xff00 and all seen;
+   reading e_shnum alone would see none of them *)
+Example C08_ex_many_sections :
+  shnum_fields 0xfeff = (0xfeff, 0) /\ shnum_fields 0xff00 = (0, 0xff00) /\
+  num_sections 64 0 0xff00 = 0xff00 /\ num_sections 64 0xfeff 0 = 0xfeff /\
+  let table := mkSec [] 0 0 3 0 0 :: [mkSec [46; 114; 101; 108; 46; 120] SHT_REL 0 0 0 8; mkSec [46; 120] 1 0 0 0 0] in
+  iter_sections 64 0 table = table /\ find_relocations_for_section (iter_sections 64 0 table) [46; 120] <> None.
+Proof. repeat split; try (vm_compute; reflexivity). vm_compute. discriminate. Qed.
